@@ -23,6 +23,7 @@ type Collector struct {
 	labels      map[string]int64
 	excluded    map[string]int64
 	samples     []interface{}
+	auto        []interface{} // first cases as canonical strings, used when the test wrote no sample itself
 	sampleAt    int64
 	extra       map[string]int64
 	rule        string
@@ -54,6 +55,14 @@ func (c *Collector) Case(canon string, nontrivial bool, labels ...string) {
 	}
 	for _, l := range labels {
 		c.labels[l]++
+	}
+	// a job whose test writes no samples of its own still shows what it generated: its first cases, as canonical strings
+	if len(c.samples) == 0 && c.evals <= 3 {
+		s := canon
+		if len(s) > 600 {
+			s = s[:600] + "..."
+		}
+		c.auto = append(c.auto, map[string]interface{}{"case": s, "labels": labels, "nontrivial": nontrivial})
 	}
 }
 
@@ -133,6 +142,9 @@ func (c *Collector) Flush() {
 	}
 	c.mu.Lock()
 	defer c.mu.Unlock()
+	if len(c.samples) == 0 {
+		c.samples = c.auto
+	}
 	p := partial{Evaluations: c.evals, NontrivEvals: c.nontrivEval, Labels: c.labels, Excluded: c.excluded, Extra: c.extra,
 		Samples: c.samples, Rule: c.rule, Assumptions: c.assumptions, HashesCapped: len(c.nontriv) >= maxHashes}
 	p.Hashes = make([]uint64, 0, len(c.nontriv))
